@@ -345,8 +345,8 @@ REGISTRY = {
     },
     'C07': {
         'theorems': ['PP.C07.timedelta', 'PP.C07.timedelta_ranges', 'PP.C07.dropWhile_zero_restores', 'PP.C07.time_fields',
-                     'PP.C07.datetime_date_only', 'PP.C07.chainmap_shortcut', 'PP.C07.deque_maxlen', 'PP.C04.sound_pformat'],
-        'modules': VALUE_MODULES + ['PP.Model.Std', 'PP.Props.C07'],
+                     'PP.C07.datetime_date_only', 'PP.C07.chainmap_shortcut', 'PP.C07.deque_maxlen', 'PP.C04.sound_pformat', 'PP.C07.printer_inventory'],
+        'modules': VALUE_MODULES + ['PP.Model.Std', 'PP.Props.C07', 'PP.Generated', 'PP.Props.PrinterInventory'],
         'sections': [{'name': 'stdlib', 'run': simple_sec('sec_stdlib', 'stdlib_section')},
                      {'name': 'builtin-values', 'run': values_sec('builtin_values_section')}],
         'trusted': VALUE_TRUSTED,
